@@ -8,6 +8,7 @@ import Driver.C09
 import Driver.C16
 import Driver.C17
 import Driver.C04
+import Driver.C18
 
 def main (args : List String) : IO UInt32 := do
   match args with
@@ -21,4 +22,5 @@ def main (args : List String) : IO UInt32 := do
   | "C16" :: rest => DriverC16.main rest; return 0
   | "C17" :: rest => DriverC17.main rest; return 0
   | "C04" :: rest => DriverC04.main rest; return 0
+  | "C18" :: rest => DriverC18.main rest; return 0
   | _ => IO.eprintln "usage: gvdriver <Cxx> [mode] < history"; return 2
